@@ -37,6 +37,7 @@ pub open spec fn reserved_table_is_appnote_list() -> bool { EXTRA_FIELD_MAPPING@
 pub open spec fn in_reserved_table(k: u16) -> bool {
     exists|i: int| 0 <= i < EXTRA_FIELD_MAPPING@.len() && #[trigger] EXTRA_FIELD_MAPPING@[i] == k
 }
+// @props: C12 C17 -- the reserved-ID table is the APPNOTE list
 pub proof fn lemma_reserved_table_is_appnote(k: u16)
     requires reserved_table_is_appnote_list()
     ensures in_reserved_table(k) <==> appnote_mapped_id(k)
